@@ -17,6 +17,22 @@ import (
 	"verifharness/internal/gen"
 )
 
+type CMColJ struct {
+	N   string      `json:"n"`
+	Ty  int         `json:"ty"`
+	Pre string      `json:"pre"`
+	Ent [][2]uint64 `json:"ent"`
+}
+type CMJ struct {
+	Hex      string      `json:"hex"`
+	Sid      uint64      `json:"sid"`
+	Off      uint64      `json:"off"`
+	Size     uint32      `json:"size"`
+	ChunkLen int         `json:"chunklen"`
+	Trs      [][2]uint64 `json:"trs"`
+	Cols     []CMColJ    `json:"cols"`
+}
+
 type ColIn struct {
 	T     string   `json:"t"`              // int float bool string
 	Nulls []int    `json:"nulls"`          // 1 = null, per row
@@ -178,6 +194,18 @@ func runCol(c *Case) {
 		return
 	}
 	nseg := (n + lim - 1) / lim
+	cm := &ch.Meta
+	c.CM = &CMJ{Hex: hex.EncodeToString(cm.Bytes), Sid: cm.Sid, Off: uint64(cm.Offset), Size: cm.Size, ChunkLen: len(ch.Chunk)}
+	for _, r := range cm.Ranges {
+		c.CM.Trs = append(c.CM.Trs, [2]uint64{uint64(r[0]), uint64(r[1])})
+	}
+	for i := range cm.ColNames {
+		cj := CMColJ{N: hex.EncodeToString([]byte(cm.ColNames[i])), Ty: int(cm.ColTypes[i]), Pre: hex.EncodeToString(cm.ColPreAgg[i])}
+		for _, e := range cm.ColSegs[i] {
+			cj.Ent = append(cj.Ent, [2]uint64{uint64(e[0]), uint64(e[1])})
+		}
+		c.CM.Cols = append(c.CM.Cols, cj)
+	}
 	curCol, curSeg := "", -1
 	fail := func(f string, a ...any) {
 		if c.Oracle == "" {
